@@ -43,7 +43,7 @@ def mandatory_bins(tier):
     b += ["key_trailing_zero_%d" % z for z in (1, 2, 3, 15)]
     b += ["crc_lo_00:cust", "crc_hi_00:cust", "crc_both_00:cust", "crc_lo_00:update", "crc_hi_00:update", "crc_both_00:update",
           "decryptors_all", "decryptors_single", "decryptors_partial", "pass_through_block", "encrypted_config_component", "customer_key_present", "customer_key_absent",
-          "version_00", "version_ff", "version_80", "code_all_zero", "code_ends_00", "config_blob_trailing_zero_padding", "key_all_zero", "ecc_distractor_decryptors_before_the_matching_one", "ecc_distractor_encryptors_on_write", "second_write_after_replacing_a_block_of_the_same_kind", "foreign_blocks_of_unknown_kind", "session_key_contains_customer_key", "file_name_instead_of_stream", "read_with_mac_check_off", "update_block_attributes_reassigned", "stream_positioned_after_other_content"]
+          "version_00", "version_ff", "version_80", "code_all_zero", "code_ends_00", "config_blob_trailing_zero_padding", "key_all_zero", "ecc_distractor_decryptors_before_the_matching_one", "ecc_distractor_encryptors_on_write", "second_write_after_replacing_a_block_of_the_same_kind", "foreign_blocks_of_unknown_kind", "session_key_contains_customer_key", "file_name_instead_of_stream", "read_with_mac_check_off", "update_block_attributes_reassigned", "stream_positioned_after_other_content", "constructed_without_block_list_then_add_auth_block"]
     return b
 
 
@@ -89,7 +89,14 @@ def check_case(ns, ctx, case, conf, key, specs, subsets):
         if len(rc.blob) % 16:
             ctx.bin("config_blob_trailing_zero_padding")
     mcase = G.Case(case.comments, model_comps)
-    f = B.Bec2File(bf3, GB.real_auth_blocks(ns, specs), key)
+    if (key[5] + len(specs)) % 3 == 0:
+        # constructed WITHOUT a block list (and with the key as keyword), blocks added one by one afterwards
+        f = B.Bec2File(bf3, session_key=key)
+        for blk in GB.real_auth_blocks(ns, specs):
+            f.add_auth_block(blk)
+        ctx.bin("constructed_without_block_list_then_add_auth_block")
+    else:
+        f = B.Bec2File(bf3, GB.real_auth_blocks(ns, specs), key)
     buf = io.StringIO()
     ctx.ev()
     has_ecc = any(s["kind"] == "ecc" for s in specs)
